@@ -45,7 +45,7 @@ def sym(E, p, kf):
         return dict(goal=False, got=got, case=case)
     if got["dtype"] == "float64":
         # weighted bincount returns float64: the cells are int->float conversions of exact integer sums; compare the integers
-        got = dict(got, dtype="int64", flat=[(g.arg(0) if z3.is_expr(g) and z3.is_app(g) and g.decl().name().startswith("uf_cast_int64_float64") else (int(g) if isinstance(g, float) else g)) for g in got["flat"]])
+        got = dict(got, dtype="int64", flat=[(np._fp_to_int(g, np.dtype("float64"), np.dtype("int64")) if z3.is_expr(g) else (int(g) if isinstance(g, float) else g)) for g in got["flat"]])
     starts, _ = specs.prefix_starts(lens)
     D = specs.store_of(data)
     n = got["shape"][0]
